@@ -187,8 +187,35 @@ def classify(args, name):
     return classes
 
 
+PAUSE_HELPERS = ("doTimedPause", "timed_pause")
+
+
+def pause_problem(got, n):
+    """The statement fixes no particular split: zero-move commands whose durations each lie in 1..750 and sum to n
+    (none for n <= 0).  Returns a description of what is wrong, or None."""
+    durations = []
+    for text in got:
+        parts = text.rstrip("\r").split(",")
+        if len(parts) != 4 or parts[0] != "SM" or parts[2:] != ["0", "0"] or not text.endswith("\r") \
+                or not parts[1].isdigit():
+            return "%r is not a zero-move command SM,<duration>,0,0" % text
+        durations.append(int(parts[1]))
+    if n <= 0:
+        return "a pause of %d ms must send nothing" % n if durations else None
+    if not all(1 <= d <= 750 for d in durations):
+        return "durations %r are not all within 1..750" % durations
+    if sum(durations) != n:
+        return "durations %r sum to %d, not %d" % (durations, sum(durations), n)
+    return None
+
+
 def check_exact(ctx, case, got, expected, what):
     want = [e + "\r" for e in expected]
+    if case.get("helper") in PAUSE_HELPERS:
+        problem = pause_problem(got, case["args"][0])
+        if problem:
+            ctx.fail("%s wrote %r: %s" % (what, got, problem), case)
+        return
     if got != want:
         ctx.fail("%s wrote %r, documented command text is %r" % (what, got, want), case)
 
@@ -320,6 +347,12 @@ def sequence_body(ctx, case):
             call_sut(getattr(obj, name), *args)
         got = texts(port.writes[before:])
         want = [e + "\r" for e in expected]
+        if name in PAUSE_HELPERS:
+            problem = pause_problem(got, args[0])
+            if problem:
+                ctx.fail("after %r, %s%r wrote %r: %s" % (done, name, tuple(args), got, problem), case)
+            done.append([name, args])
+            continue
         if got != want:
             ctx.fail("after %r, %s.%s%r wrote %r, documented command text is %r"
                      % (done, "ebb_motion" if layer == "legacy" else "EBBMotionWrap", name, tuple(args), got, want),
